@@ -89,6 +89,22 @@ def encode(cls, vals):
 
 
 def rand_part(rng, rx, batched, ver):
+    if rng.random() < 0.1:
+        # degenerate content: every field zero and an all-zero burst (octets that look like padding), or
+        # every field at its other end
+        z = rng.random() < 0.7
+        n = GB
+        p = dict(tn=0 if z else 7, batch=0 if z else 1, trxn=0 if z else 63, nope=0, mod=0, tsc=0 if z else 7)
+        if rx:
+            p.update(rssi=0 if z else -255, toa256=0 if z else -1, cir=0 if z else -1, soft=[0 if z else 254] * n)
+        else:
+            p.update(pwr=0 if z else 255, scpir=0 if z else -1, hard=[0 if z else 1] * n)
+        if batched:
+            p["shadow"] = 0 if z else 1
+        else:
+            p["ver"] = 2
+            p["fn"] = 0 if z else 2 ** 31 - 1
+        return p
     mod = rng.choice(sorted(MODLEN))
     nope = 1 if rng.random() < 0.15 else 0
     if nope and rng.random() < 0.5:
